@@ -789,3 +789,7 @@ def run(ctx):
     _run_main2(ctx)
     extras2(ctx)
     ctx.flush()
+
+
+# evidence: how the model is tied to the source on every run (as built, supersedes the value above)
+TIE = 'translator (fns/time_shift.py, surface.py -> Gen/TimeShift; Props/C19Gen) + correspondence (exact on dyadic-safe inputs)'
